@@ -11,13 +11,20 @@ LIMIT = 80
 
 def universe(rng):
     base = gen.oid(rng, prefix=(1, 3, 6, 1), min_extra=1, max_extra=3, small=0.5)
+    top = None
+    if rng.random() < 0.15:
+        top = rng.choice([(0, 0), (0, 39), (1, 0), (1, 39), (2, 0), (2, 39)])
+        base = gen.oid(rng, prefix=top, min_extra=0, max_extra=2, small=0.5)
     inside = set()
     for _ in range(rng.randint(2, 7)):
         inside.add(base + tuple(rng.choice([0, 1, 2, 3, 127, 128, 16383, 16384]) for _ in range(rng.randint(1, 2))))
     inside = sorted(inside)
     last = base[-1]
     outside = [base[:-1] + (last + 1,), base[:-1] + (last + 1, 1), base[:-1], (1, 3), base[:-1] + ((last << 7) & 0xFFFFFFFF | 1,), base[:-1] + (max(0, last - 1), 5)]
-    outside = [o for o in outside if len(o) >= 2 and o[: len(base)] != base]
+    if top is not None:
+        # neighbours across the top-level arcs, incl. 2.40 and beyond (first subidentifier >= 120)
+        outside += [(2, gen.second_arc_under_2(rng)), (2, gen.second_arc_under_2(rng), 1), (top[0], max(0, top[1] - 1), 7), (min(2, top[0] + 1), 0), (0, 0)]
+    outside = [o for o in outside if len(o) >= 2 and o[: len(base)] != base and (o[0] == 2 or o[1] <= 39) and 80 + o[1] < 2**32]
     return base, inside, outside
 
 
